@@ -248,7 +248,7 @@ def z(n):
 def q_of_float(x):
     """exact rational of a binary64 as Coq Q literal (n # d)."""
     fr = Fraction(float(x))
-    return "(%s # %d)" % (z(fr.numerator), fr.denominator)
+    return "(%s # %d)%%Q" % (z(fr.numerator), fr.denominator)
 
 
 def r_of_float(x):
